@@ -1149,6 +1149,12 @@ func parseBMPMessage(data []byte, optionsFunc func(BMPPeerHeader) []*bgp.Marshal
 	if err != nil {
 		return nil, err
 	}
+	// The message is Header.Length octets of data. Re-slicing without this
+	// check reaches into the spare capacity of the caller's buffer (stale
+	// octets beyond len(data)) instead of failing for a truncated message.
+	if msg.Header.Length < BMP_HEADER_SIZE || uint64(msg.Header.Length) > uint64(len(data)) {
+		return nil, fmt.Errorf("invalid BMP message length %d (%d octets available)", msg.Header.Length, len(data))
+	}
 	data = data[BMP_HEADER_SIZE:msg.Header.Length]
 
 	switch msg.Header.Type {
@@ -1200,7 +1206,13 @@ func SplitBMP(data []byte, atEOF bool) (advance int, token []byte, err error) {
 	if err = tmpHdr.DecodeFromBytes(data[:BMP_HEADER_SIZE]); err != nil {
 		return 0, nil, nil
 	}
-	if len(data) < int(tmpHdr.Length) {
+	// A length below the header size can never be completed: returning the
+	// empty token it describes with advance 0 would make a bufio.Scanner
+	// hand out empty tokens for ever.
+	if tmpHdr.Length < BMP_HEADER_SIZE {
+		return 0, nil, fmt.Errorf("invalid BMP message length %d", tmpHdr.Length)
+	}
+	if uint64(len(data)) < uint64(tmpHdr.Length) {
 		return 0, nil, nil
 	}
 	return int(tmpHdr.Length), data[:tmpHdr.Length], nil
